@@ -13,5 +13,5 @@ CONFIG = dict(
           "Non-trivial = the case has an event with >= 2 allowed frames, a rejected claim, or a Build after >= 256 earlier Builds; "
           "distinct by hash of DAG, probe position and history class."),
     assumptions=["forking validators hold < 1/3 of the weight", "one epoch without sealing"],
-    units=[dict(test="TestC04FrameRule", quick=250, thorough=16000, shards=16)],
+    units=[dict(test="TestC04FrameRule", quick=250, thorough=40000, shards=16)],
 )
